@@ -121,7 +121,55 @@ def random_action(rng, N, W, ids):
     return act("SetChildrenOne", n=Nd(), t=T())
 
 
-def random_histories(ids, W, count, depth, seed, log, jobs=8):
+def dense_links(rng, N, W, ids, d, depth):
+    """Step d of a history that first builds a dense dependency graph (every task gets up to three predecessors
+    among the earlier ones of a random order, in random list order) and then tries link after link between
+    random pairs: diamonds, long chains and shared ancestors, which random walks over everything rarely build."""
+    act = graph.act
+    if d == 0:
+        rng.dense_order = rng.sample(range(1, N + 1), N)
+    order = rng.dense_order
+    if d < N:
+        t = order[d]
+        earlier = order[:d]
+        return act("SetPreds", t=t, seq=rng.sample(earlier, min(len(earlier), rng.choice([0, 1, 2, 2, 3]))))
+    a, b, c = rng.randint(1, N), rng.randint(1, N), rng.randint(1, N)
+    k = rng.random()
+    if k < 0.4:
+        return act("PredAppend", t=a, n=b)
+    if k < 0.6:
+        return act("SuccAppend", t=a, n=b)
+    if k < 0.8:
+        return act("LShift", t=a, seq=[b, c])
+    return act("RShift", t=a, seq=[b, c])
+
+
+def handle_walk(rng, N, W, ids, d, depth):
+    """Step d of a walk over ONE root list, mostly through list objects grabbed before any mutation: what a
+    long-lived list object does after the list was sorted, moved in or reordered is hidden state that no
+    projection shows, so it is walked, not enumerated."""
+    act = graph.act
+    n = N + 1
+    t, x = rng.randint(1, N), rng.randint(1, N)
+    via = 1 if rng.random() < 0.75 else 0
+    k = rng.random()
+    if k < 0.2:
+        return act("ChAppend", n=n, t=t, via=via)
+    if k < 0.35:
+        return act("ChInsert", n=n, t=t, i=rng.choice([0, 0, 1, 2]), via=via)
+    if k < 0.45:
+        return act("ChRemove", n=n, t=t, via=via)
+    if k < 0.65:
+        return act("ChSort", n=n, key=rng.choice([1, 2]), rev=rng.choice([0, 1]), via=via)
+    if k < 0.8:
+        return act("ChMove", n=n, seq=[t], before=x, via=via) if rng.random() < 0.5 else \
+            act("ChMove", n=n, seq=[t], after=x, via=via)
+    if k < 0.9:
+        return act("ChReorder", n=n, seq=[ids[t - 1]] if rng.random() < 0.5 else [ids[t - 1], ids[x - 1]], via=via)
+    return act("SetChildren", n=n, seq=rng.sample(range(1, N + 1), rng.randint(0, N)))
+
+
+def random_histories(ids, W, count, depth, seed, log, jobs=8, step=None):
     """Record `count` random histories of `depth` calls each and have TLC judge every step."""
     rng = random.Random(seed)
     N = len(ids)
@@ -135,7 +183,7 @@ def random_histories(ids, W, count, depth, seed, log, jobs=8):
         pre = graph.project(U, obs=False)
         hist = []
         for d in range(depth):
-            a = random_action(rng, N, W, ids)
+            a = step(rng, N, W, ids, d, depth) if step else random_action(rng, N, W, ids)
             out, ret = graph.apply(U, a)
             post = graph.project(U)
             obs = post.pop("obs")
@@ -299,21 +347,24 @@ def run(tier, seed, log):
 
     # --- 4. long random histories over larger universes ----------------------------------------
     if True:
-        plans = [([0, 2, 3, 0, 2, -4], 3, 150 if tier == "quick" else 1500, 40)]
+        big = tier != "quick"
+        plans = [([0, 2, 3, 0, 2, -4], 3, 1500 if big else 150, 40, None, "random"),
+                 ([3, 1, 4, -1, 5, 9], 1, 3000 if big else 250, 20, dense_links, "dense links"),
+                 ([0, -1, 5, 7], 1, 4000 if big else 400, 12, handle_walk, "list objects")]
         if tier == "thorough":
-            plans.append(([0, 2, 3, 4, -5, 0, 2, 6], 3, 600, 60))
-        for ids, W, count, depth in plans:
-            r = random_histories(ids, W, count, depth, seed + 17, log)
+            plans.append(([0, 2, 3, 4, -5, 0, 2, 6], 3, 600, 60, None, "random"))
+        for ids, W, count, depth, step, pname in plans:
+            r = random_histories(ids, W, count, depth, seed + 17, log, step=step)
             cov["events"] += r["events"]
             cov["nontrivial"] += r["nontrivial"]
             cov["judge_states"] += r["jstates"]
             cov["drift"] += r["ndrift"]
-            cov["configs"].append({"name": "random", "ids": ids, "W": W, "histories": count, "depth": depth,
+            cov["configs"].append({"name": pname, "ids": ids, "W": W, "histories": count, "depth": depth,
                                    "events": r["events"]})
             cov["samples"].extend(r["sample"][:1])
             fails.extend(r["fails"])
-            log("random histories ids=%s W=%d: %d calls judged, %d failing histories" % (ids, W, r["events"],
-                                                                                       len(r["fails"])))
+            log("%s histories ids=%s W=%d: %d calls judged, %d failing histories" % (pname, ids, W, r["events"],
+                                                                                   len(r["fails"])))
     # --- 5. the repository's own tests, recorded and judged call by call ----------------------
     th_rt.join()
     if isinstance(side["rt"], Exception):
